@@ -13,6 +13,8 @@ mod c04;
 mod c06;
 mod c07;
 mod c08;
+mod c09;
+mod c10;
 mod c18;
 mod c11;
 mod c12;
@@ -37,6 +39,8 @@ fn table() -> Vec<(&'static str, RunFn, RecheckFn)> {
         ("C06", c06::run, c06::recheck),
         ("C07", c07::run, c07::recheck),
         ("C08", c08::run, c08::recheck),
+        ("C09", c09::run, c09::recheck),
+        ("C10", c10::run, c10::recheck),
         ("C11", c11::run, c11::recheck),
         ("C18", c18::run, c18::recheck),
         ("C12", c12::run, c12::recheck),
